@@ -4,4 +4,5 @@ CONSTANT Tier = "thorough"
 SPECIFICATION Spec
 INVARIANT Layout
 INVARIANT Hash
+INVARIANT Rows
 CHECK_DEADLOCK FALSE
